@@ -1,9 +1,11 @@
 // C05 harness.
 //   lex <hexsrc>      -> simplecpp::TokenList(data,size,...) as constructed (readfile + combineOperators), comments kept
 //   tokens <hexsrc>   -> ... after removeComments()
+//   lexf <hexsrc>     -> the same through simplecpp::TokenList(filename, ...) as the CLI does (temp file in argv[1])
 //   output: T {<hexstr>:<line>:<col>:<name><number><comment>:<op>}*
 //   match <hexpattern> <varid> <ntok> {<hexstr> <varid>}*   -> real interpreted Token::Match; output: T <tokType>:<isName> ... | I <res>
 #include "common.h"
+#include <fstream>
 #include "simplecpp.h"
 #include "token.h"
 #include "tokenlist.h"
@@ -13,11 +15,31 @@
 
 static std::string R(bool b) { return b ? "1" : "0"; }
 
-int main() {
+static std::string dump(const simplecpp::TokenList& list) {
+    std::string out = "T";
+    for (const simplecpp::Token* t = list.cfront(); t; t = t->next) {
+        out += " " + hex(t->str()) + ":" + std::to_string(t->location.line) + ":" + std::to_string(t->location.col) + ":" +
+               R(t->name) + R(t->number) + R(t->comment) + ":" + std::to_string(static_cast<int>(static_cast<unsigned char>(t->op)));
+    }
+    return out;
+}
+
+int main(int argc, char** argv) {
     Settings settings;
     std::string line;
     while (std::getline(std::cin, line)) {
         std::vector<std::string> f = fields(line);
+        if (f.size() == 2 && f[0] == "lexf" && argc > 1) {
+            // the constructor the CLI uses: simplecpp::TokenList(filename, ...) (FileStream)
+            const std::string src = unhex(f[1]);
+            const std::string path = std::string(argv[1]) + "/lexf.c";
+            { std::ofstream o(path, std::ios::binary); o << src; }
+            std::vector<std::string> files;
+            simplecpp::OutputList outputList;
+            simplecpp::TokenList list(path, files, &outputList);
+            std::cout << dump(list) << std::endl;
+            continue;
+        }
         if (f.size() == 2 && (f[0] == "lex" || f[0] == "tokens")) {
             const std::string src = unhex(f[1]);
             std::vector<std::string> files;
@@ -25,12 +47,7 @@ int main() {
             simplecpp::TokenList list(simplecpp::View(src.data(), src.size()), files, "f.c", &outputList);
             if (f[0] == "tokens")
                 list.removeComments();
-            std::string out = "T";
-            for (const simplecpp::Token* t = list.cfront(); t; t = t->next) {
-                out += " " + hex(t->str()) + ":" + std::to_string(t->location.line) + ":" + std::to_string(t->location.col) + ":" +
-                       R(t->name) + R(t->number) + R(t->comment) + ":" + std::to_string(static_cast<int>(static_cast<unsigned char>(t->op)));
-            }
-            std::cout << out << std::endl;
+            std::cout << dump(list) << std::endl;
             continue;
         }
         if (f.size() >= 4 && f[0] == "match") {
